@@ -51,3 +51,15 @@ def c11_multivector_constant_truncated(w):
     return (w.get('kind') == 'registered function returns a different value'
             and w.get('mode') == 'numeric'
             and 'mv-constant' in (prog.get('feats') or []))
+
+
+def c16_ndarray_separated_advanced_indices(w):
+    """An ndarray-backed array-valued multivector indexed with two advanced indices (list / int) separated by a slice:
+    MultiVector.__getitem__ indexes the whole (keys, ...) array at once with (slice(None), *item), and numpy then moves the broadcast
+    axis of the advanced indices in front of the key axis, so coefficients of different blades get mixed."""
+    import re
+    idx = str(w.get('index') or '')
+    m = re.match(r"^\((\[[0-9, ]+\]|\d+), slice\(None, None, None\), (\[[0-9, ]+\]|\d+)\)$", idx)
+    return (w.get('kind') in ('X[idx] does not hold exactly the addressed entries of every coefficient', 'op(X, Y)[idx] != op(X[idx], Y[idx])')
+            and bool(m) and ('[' in m.group(1) or '[' in m.group(2))
+            and 'ndarray' in (w.get('container'), w.get('container_y')))
